@@ -69,8 +69,8 @@ def expected_rows(motif, vs):
 def expected_names(motif):
     n = motif["names"]
     ne = len(template_edges(motif))
-    if isinstance(n, str):
-        return [n] * ne
+    if not isinstance(n, (list, tuple)):
+        return [n] * ne  # one (scalar) name for the whole topology
     return list(n)
 
 
@@ -142,6 +142,8 @@ def gcm_case(draw, tier, algos=("fast", "network", "motifs"), max_leaf_stubs=Non
                 mo["names_iter"] = draw(st.booleans())
         else:
             mo["names"] = draw(st.sampled_from([f"t{j}", f"t{j}", NAME_POOL[j % len(NAME_POOL)] + f"#{j}"]))
+            if j == 0 and draw(st.integers(0, 5)) == 5:
+                mo["names"] = draw(st.sampled_from(["", 0]))  # a topology label may be any value, falsy ones included
             if mo["kind"] == "template" and draw(st.integers(0, 3)) == 3:
                 # a callback that omits degenerate (u,u) edges: its edge count varies from instance to instance
                 mo["drop_loops"] = True
@@ -218,8 +220,8 @@ def build(case, journal):
     if algo == "motifs":
         def namer(mo):
             names = mo["names"]
-            ret = names if isinstance(names, str) else tuple(names)
-            if mo.get("names_iter") and not isinstance(names, str):
+            ret = tuple(names) if isinstance(names, (list, tuple)) else names
+            if mo.get("names_iter") and isinstance(names, (list, tuple)):
                 return lambda: iter(ret)  # a naming callback may yield its names (one-shot iterable)
             return lambda: ret
         params[GN.EDGE_NAMES] = [namer(mo) for mo in case["motifs"]]
@@ -252,13 +254,26 @@ def generate(case):
     g, cls = build(case, journal)
     jds = [tuple(r) for r in case["jds"]]
     pristine = copy.deepcopy(jds)
+    arg = jds
+    if case.get("np_dtype"):
+        import numpy as np
+        arg = np.array(case["jds"], dtype=getattr(np, case["np_dtype"]))
     with rng_ctx(case["rng"]):
         prior = case.get("prior")
         if prior:
             pj = {"same": list(jds), "reversed": list(reversed(jds)), "doubled": list(jds) + list(jds)}[prior]
             call("generate-earlier-graph", g.random_clustered_graph, pj)
             del journal[:]
-        res = call("generate", g.random_clustered_graph, jds)
+        res = call("generate", g.random_clustered_graph, arg)
+    if case.get("np_dtype"):
+        if [tuple(int(x) for x in r) for r in arg.tolist()] != pristine:
+            jds = [("modified",)]
+        # normalise what the result carries to plain ints for the comparisons
+        if hasattr(res, "joint_degrees"):
+            try:
+                res.joint_degrees = [tuple(int(x) for x in r) for r in res.joint_degrees]
+            except Exception:
+                pass
     return g, cls, res, journal, jds, pristine
 
 
@@ -299,7 +314,7 @@ def classes_of(case):
             cl.add("bare_edge_is_the_argument_list")
         if m.get("names_iter"):
             cl.add("names_from_one_shot_iterator")
-        if not isinstance(m["names"], str) and len(set(m["names"])) > 1:
+        if isinstance(m["names"], (list, tuple)) and len(set(m["names"])) > 1:
             cl.add("heterogeneous_names")
     return cl
 
